@@ -18,8 +18,8 @@ def key_specs(ctx, n):
         prof = dict(STOCH, p_e=[0.0, 1.0, 0.5][i % 3])
         m = gen.rand_model(rng, prof)
         na = rng.choice([1, 2, 3])
-        specs.append({"cid": i, "mdl": m, "init": qinit(gen.rand_initial_states(rng, m, na)), "seed": rng.randrange(10**6),
-                      "eager": i % 2 == 0})
+        specs.append({"cid": i, "mdl": m, "init": qinit(gen.rand_initial_states(rng, m, na)),
+                      "seed": [0, 2**31 - 1][(i // 5) % 2] if i % 5 == 4 else rng.randrange(10**6), "eager": i % 2 == 0})
     return specs
 
 
@@ -67,6 +67,8 @@ def repro_specs(ctx, n):
         na = rng.choice([2, 5, 9])
         init = qinit(gen.rand_initial_states(rng, m, na))
         s1, s2 = rng.randrange(10**6), rng.randrange(10**6)
+        if i % 3 == 0:      # the ends of the seed range: 0 is a seed like any other
+            s1 = [0, 2**31 - 1, 1][(i // 3) % 3]
         tgt = "solve_and_simulate" if i % 2 else "simulate"
         sim = lambda seed: {"op": "simulate", "target": tgt, "init": init, "seed": seed, "vsrc": "own"}  # noqa: E731
         plan = [sim(s1), sim(s1), {"op": "rel-sim", "a": 1, "b": 2, "map": list(range(na)), "scope": "all", "what": "same-seed-different-frame"},
